@@ -262,6 +262,13 @@ def gen_cases(ctx):
         add('parseaddr', 'parseaddr ' + hexs(m), 'structured')
         if rng.random() < 0.1:
             add('checkaddr', 'checkaddr ' + hexs(m), 'structured')
+    # an empty local part in front of an address literal (and of a domain), alone and behind a source route
+    for lit in (b'[192.0.2.4]', b'[IPv6:::1]', b'[IPv6:2001:db8::1]', b'[1.2.3.4', b'example.org', b'[]'):
+        for pre in (b'', b'"', b'""', b'.', b' '):
+            add('parseaddr', 'parseaddr ' + hexs(pre + b'@' + lit), 'empty-local')
+            add('checkaddr', 'checkaddr ' + hexs(pre + b'@' + lit), 'empty-local')
+            for route in (b'@mx.example.net:', b'@a.example.org,@b.example.net:'):
+                add('addrsyntax', 'addrsyntax 1 ' + hexs(route + pre + b'@' + lit + b'>'), 'empty-local')
     # literal lengths around INET_ADDRSTRLEN / INET6_ADDRSTRLEN
     for n in range(13, 19):
         add('parseaddr', 'parseaddr ' + hexs(b'a@[' + (b'1' * n) + b']'), 'literal-len')
